@@ -181,6 +181,24 @@ impl<'a> Ctx<'a> {
 				out.push(viol("slp_write_twice", &cls, "mismatch", "two writes of the same game differ".into()));
 			}
 		}
+		// read with the debug option (dumps every event into a directory): the game is the same game
+		if crate::util::fnv(&self.built.bytes) % 8 == 0 && self.built.bytes.len() < 1 << 20 {
+			let dir = std::env::temp_dir().join(format!("pv-debug-{}-{:x}", std::process::id(), crate::util::fnv(&self.built.bytes)));
+			let opts = slippi::de::Opts { skip_frames: false, compute_hash: false, debug: Some(slippi::de::Debug { dir: dir.clone() }) };
+			let res = guard(|| slippi::read(std::io::Cursor::new(&self.built.bytes[..]), Some(&opts)));
+			let _ = std::fs::remove_dir_all(&dir);
+			match res {
+				Outcome::Ok(gd) => match real::write_slp(&gd) {
+					Outcome::Ok(w) => {
+						if let Some(i) = first_diff(&w, &self.built.bytes) {
+							out.push(viol("slp_roundtrip_debug_opt", &cls, "mismatch", format!("read with the debug option: written file differs at byte {}", i)));
+						}
+					}
+					o => out.push(outcome_viol("slp_roundtrip_debug_opt", &cls, &o)),
+				},
+				o => out.push(outcome_viol("slp_roundtrip_debug_opt", &cls, &o)),
+			}
+		}
 		// the same file arriving in short reads: still read, still written back identically
 		let frag = if self.built.bytes.len() % 2 == 0 { crate::stream::Frag::RandomIntr(self.built.bytes.len() as u64) } else { crate::stream::Frag::Fixed(1 + self.built.bytes.len() % 6) };
 		let mut r = crate::stream::FragReader::new(&self.built.bytes, frag.clone());
